@@ -131,6 +131,26 @@ def oracle_pickle(rng):
         x = cl.Variable(shape=(2, 2), name='px', var_properties=['symmetric'])
         e = 2 * x[0, 1] + x[1, 1]
         x.value = np.array([[1.0, 2.0], [2.0, 3.0]])
+        # values that are exactly zero are values
+        xz = cl.Variable(shape=(3,), name='pzero')
+        xz.value = np.array([0.0, -1.5, 0.0])
+        xz2 = pickle.loads(pickle.dumps(xz))
+        if not np.array_equal(np.asarray(xz2.value, dtype=float), np.array([0.0, -1.5, 0.0])):
+            return 'the stored value [0, -1.5, 0] of a Variable came back from a pickle round trip as %s' % np.asarray(xz2.value).tolist()
+        # assigning values through views reaches the components the view refers to
+        xv = cl.Variable(shape=(4,), name='pview')
+        xv.value = np.zeros(4)
+        xv[::-1].value = np.array([1.0, 2.0, 3.0, 4.0])
+        if not np.array_equal(np.asarray(xv.value, dtype=float), np.array([4.0, 3.0, 2.0, 1.0])):
+            return 'x[::-1].value = [1,2,3,4] left x.value = %s' % np.asarray(xv.value).tolist()
+        xv[2:].value = np.array([7.0, 8.0])
+        if not np.array_equal(np.asarray(xv.value, dtype=float), np.array([4.0, 3.0, 7.0, 8.0])):
+            return 'x[2:].value = [7,8] left x.value = %s' % np.asarray(xv.value).tolist()
+        zm = cl.Variable(shape=(2, 3), name='pviewm')
+        zm.value = np.zeros((2, 3))
+        zm.T.value = np.arange(6.0).reshape(3, 2)
+        if not np.array_equal(np.asarray(zm.value, dtype=float), np.arange(6.0).reshape(3, 2).T):
+            return 'Z.T.value = M left Z.value = %s, expected M.T' % np.asarray(zm.value).tolist()
         x2, e2 = pickle.loads(pickle.dumps((x, e)))
         if x2.name != x.name or list(x2.scalar_variable_ids) != list(x.scalar_variable_ids) or x2.generation != x.generation \
                 or not x2.is_proper() or x2.shape != x.shape:
@@ -280,6 +300,14 @@ def oracle_builder_names(rng):
         for form in ('primal', 'dual'):
             probs.append(('poly_relaxation/' + form, sp.poly_relaxation(p, form=form, poly_ell=1)))
             probs.append(('poly_constrained/' + form, sp.poly_constrained_relaxation(p, pg, [], form=form, p=1, q=2, ell=0)))
+        # every kind of nonlinear atom at once: each epigraph Variable has its own name
+        from sageopt.coniclifts.operators.abs import abs as clabs
+        from sageopt.coniclifts.operators.pos import pos as clpos
+        za = cl.Variable(shape=(2,), name='atoms_z')
+        mixed = cl.Problem(cl.MIN, za[0] + za[1], [clabs(za[:1] - 3.0) <= 2, clpos(za[1:] + 1.0) <= 5, cl.vector2norm(za) <= 10,
+                                                    cl.weighted_sum_exp(np.array([1.0, 1.0]), za) <= 200, za >= -4,
+                                                    cl.relent(cl.Expression([1.0]), za[:1] + 6.0) <= 1])
+        probs.append(('all_atom_kinds', mixed))
         probs.append(('sage_feasibility', ss.sage_feasibility(f + 10)))
         probs.append(('sage_multiplier_search', ss.sage_multiplier_search(f + 10, level=1)))
     for name, prob in probs:
